@@ -299,4 +299,41 @@ def _c10_real(name):
     return f
 
 
-REAL = {"nascan": _c10_real("nascan"), "read": _c10_real("read"), "brew_rel": real_brew_rel, "conf_rel": real_conf_rel}
+def real_padded_ids(cfg, inp):
+    """Known finding (not reachable by the symbolic model, whose identifier cells are numbers or opaque text): pandas infers
+    the dtype of a text column per chunk, so zero-padded numeric PSM ids lose their padding in a confidence chunk that
+    holds no non-numeric id and keep it in a chunk that does."""
+    import tempfile
+    from pathlib import Path
+    import numpy as np
+    import pandas as pd
+    import mokapot
+    import mokapot.confidence as C
+    ids, n = list(inp["ids"]), len(inp["ids"])
+    df = pd.DataFrame({"SpecId": ids, "Label": [1, -1] * (n // 2), "ScanNr": np.arange(n) + 1, "ExpMass": [500.5 + i for i in range(n)],
+                       "f1": np.linspace(3, -3, n), "f2": np.linspace(-1, 1, n), "Peptide": ["PEP%dK" % i for i in range(n)], "Proteins": ["P%d" % i for i in range(n)]})
+    old = C.CONFIDENCE_CHUNK_SIZE
+    res = {}
+    try:
+        with tempfile.TemporaryDirectory(prefix="verif_c05_") as d:
+            d = Path(d)
+            df.to_csv(d / "x.pin", sep="\t", index=False)
+            for cs in (10 ** 6, int(cfg["chunk"])):
+                C.CONFIDENCE_CHUNK_SIZE = cs
+                ps = mokapot.read_pin([d / "x.pin"], max_workers=1)[0]
+                out = d / ("out%d" % cs)
+                out.mkdir()
+                mokapot.assign_confidence([ps], max_workers=1, scores=[df["f1"].values], dest_dir=out, prefixes=[None], decoys=True)
+                res[cs] = {f.name: f.read_text() for f in sorted(out.iterdir())}
+    except Exception as ex:
+        return dict(exception=repr(ex), error="padded-id replay raised %r" % (ex,))
+    finally:
+        C.CONFIDENCE_CHUNK_SIZE = old
+    a, b = res[10 ** 6], res[int(cfg["chunk"])]
+    if a != b:
+        f = [k for k in a if a[k] != b.get(k)][0]
+        return dict(violation="result file %s differs between one confidence chunk and chunks of %d rows: first row %r vs %r" % (f, int(cfg["chunk"]), a[f].splitlines()[1], b[f].splitlines()[1]))
+    return dict(outputs=None, violation=None)
+
+
+REAL = {"padded_ids": real_padded_ids, "nascan": _c10_real("nascan"), "read": _c10_real("read"), "brew_rel": real_brew_rel, "conf_rel": real_conf_rel}
